@@ -6,9 +6,11 @@ import (
 	"os"
 	"testing"
 
+	"github.com/Fantom-foundation/lachesis-base/inter/pos"
 	"pgregory.net/rapid"
 
 	"verif/harness/internal/dagen"
+	"verif/harness/internal/graphref"
 	"verif/harness/internal/scen"
 	"verif/harness/internal/stats"
 	"verif/harness/internal/vidx"
@@ -101,6 +103,76 @@ func prop(t *rapid.T) {
 	if len(a.Crits)+len(b.Crits) > 0 {
 		t.Fatalf("crit: %v %v", a.Crits, b.Crits)
 	}
+	// the same index object is Reset for other weights of the same validators (same IDs, so the same event IDs)
+	// and the same DAG is indexed again: answers must follow the new weights, not anything remembered
+	reused := false
+	if len(ref.IDs) >= 2 && rapid.Bool().Draw(t, "reuseIndexAfterReset") {
+		reused = true
+		ws2 := make([]pos.Weight, len(ref.IDs))
+		for i, w := range ref.Weights {
+			ws2[i] = pos.Weight(w)
+		}
+		if rapid.Bool().Draw(t, "keepTotalAndOrder") {
+			// move weight from a lighter to a heavier validator without changing total or canonical order
+			i := rapid.IntRange(0, len(ref.Canon)-2).Draw(t, "heavier")
+			j := rapid.IntRange(i+1, len(ref.Canon)-1).Draw(t, "lighter")
+			hi, lo := ref.Canon[i], ref.Canon[j]
+			room := uint64(ws2[lo]) - 1
+			if j+1 < len(ref.Canon) {
+				if nxt := ref.Weights[ref.Canon[j+1]]; uint64(ws2[lo]) > nxt {
+					room = uint64(ws2[lo]) - nxt - 1
+				} else {
+					room = 0
+				}
+			}
+			if i > 0 {
+				if prev := ref.Weights[ref.Canon[i-1]]; prev-uint64(ws2[hi]) < room+1 {
+					if prev > uint64(ws2[hi]) {
+						room = prev - uint64(ws2[hi]) - 1
+					} else {
+						room = 0
+					}
+				}
+			}
+			if room > 0 {
+				d := rapid.Uint64Range(1, room).Draw(t, "moved")
+				ws2[hi] += pos.Weight(d)
+				ws2[lo] -= pos.Weight(d)
+			}
+		} else {
+			for i := range ws2 {
+				ws2[i] = pos.Weight(rapid.Uint32Range(1, 9).Draw(t, "w2"))
+			}
+		}
+		ref2 := graphref.New(1, ref.IDs, ws2, len(ref.Evs)+8)
+		for _, e := range ref.Evs {
+			others := e.Parents
+			if e.SelfParent >= 0 {
+				others = e.Parents[1:]
+			}
+			e2 := ref2.Prepare(graphref.Proto{Creator: e.Creator, SelfParent: e.SelfParent, Others: others, Salt: e.Salt})
+			ref2.Commit(e2, e.Frame)
+			if e2.ID != e.ID {
+				t.Fatalf("harness: event IDs must not depend on weights")
+			}
+		}
+		a.ResetWith(ref2)
+		for _, i := range orderA {
+			if err := a.Add(i); err != nil {
+				t.Fatalf("after Reset: Add(e%d): %v", i, err)
+			}
+		}
+		for q := 0; q < 150; q++ {
+			x, y := rapid.IntRange(0, n-1).Draw(t, "ra"), rapid.IntRange(0, n-1).Draw(t, "rb")
+			if got, want := a.Idx.ForklessCause(ref2.Evs[x].ID, ref2.Evs[y].ID), ref2.FC(x, y); got != want {
+				t.Fatalf("after Reset of the same index to weights %v (before %v): ForklessCause(e%d, e%d) = %v, definition %v (with the old weights: %v)\n%v",
+					ws2, ref.Weights, x, y, got, want, ref.FC(x, y), scen.Describe(ref))
+			}
+		}
+		if len(a.Crits) > 0 {
+			t.Fatalf("crit after Reset: %v", a.Crits)
+		}
+	}
 	// a fork visible to some but not all events
 	for v := range ref.IDs {
 		sees, notSees := false, false
@@ -121,6 +193,9 @@ func prop(t *rapid.T) {
 	}
 	if partialFork {
 		classes = append(classes, "fork_visible_to_some")
+	}
+	if reused {
+		classes = append(classes, "index_reused_after_reset")
 	}
 	st.Case(stats.Hash(scen.Describe(ref), ref.Weights), partialFork && trueCnt > 0 && falseCnt > 0, classes...)
 	st.Class("pairs", int64(pairs))
